@@ -333,7 +333,7 @@ def rule5_ilock(ctx, fl):
             ctx.ob('C04.5', name + ': released at return', not la.held_may(r),
                    'no lock is held at return', loc=r.loc,
                    detail='held: %s' % [la.name(k) for k in la.held_may(r)])
-        ctx.ob('C04.5', name + ': no double unlock', not la.double_unlock and not la.relock,
+        ctx.ob('C04.5', name + ': no double unlock', not la.double_unlock and not la.relock and not la.unheld_unlock,
                'unlock only what is held; never re-lock a held lock', loc=f.loc)
         for a in f.mem_accesses(('myth_sleep_queue_t.head', 'myth_sleep_queue_t.tail')):
             ok = bool(keys) and la.held_must(a, keys[0])
